@@ -72,7 +72,8 @@ def execute(behaviours, ids):
                         with quiet():
                             e["digest"] = ids(dig(call_getter(g, what)))
                     except Exception as ex:
-                        e["err"] = type(ex).__name__
+                        # C08 is about reproducibility, not totality (that is C19): an error class is a value like any other
+                        e["digest"] = ids("ERR:" + type(ex).__name__)
                     e["rng"] = tap.take()
                     events.append(e)
                 elif name == "UserSeed":
@@ -139,8 +140,6 @@ def run(ctx: Ctx):
     ids = Ids()
     events = []
     for key, d in sorted(ref1.items()):
-        if d.startswith("ERR:"):
-            continue
         events.append(dict(ev="Fresh", alg=key[0], n=key[1], what=key[2], digest=ids(d)))
         if ref2.get(key) != d:
             ctx.violation(f"fresh processes disagree on {key[0]}_{key[1]} {key[2]}", dict(key=list(key), a=d, b=ref2.get(key)))
